@@ -1,8 +1,9 @@
 (** * Loop: model of src/loop3d.rs (the push/close state machine, point test, area, ...).
     Mutating methods return the new state together with the outcome, because [close] can
     mutate before failing.  Panic sites: 20 push/is_collinear unwrap (now `?`, kept for Pinned),
-    21 Index out of bounds, 22 `% 0` in is_diagonal, 23 test_point unwrap in is_diagonal,
-    24 push unwrap in sanitize, 25 Vec::remove out of bounds. *)
+    21 Index out of bounds, 22 `% 0` in is_diagonal, 25 Vec::remove out of bounds.
+    Former sites, now error returns: 23 test_point unwrap in is_diagonal (fix bff02e9), 24 push unwrap in
+    sanitize (fix 32d90b8). *)
 From Coq Require Import ZArith List Bool Arith.
 From G3 Require Import Model.Num Model.Base Model.Vec Model.Segment.
 Import ListNotations.
@@ -218,14 +219,14 @@ Section Loop.
     if Nat.eqb n O then Panic 22%N else
     do blocked <- diag_scan s (verts L) n O (S n);
     if blocked then Ok false else
-    do inside <- unwrap 23%N (loop_test_point L (seg_midpoint s));
+    do inside <- loop_test_point L (seg_midpoint s);   (* `?` since fix bff02e9 (was .unwrap(): Panic 23) *)
     Ok inside.
 
   (** [sanitize] *)
   Fixpoint push_all (L : Loop) (vs : list V) : res Loop :=
     match vs with
     | [] => Ok L
-    | v :: tl => do L' <- unwrap 24%N (loop_push L v); push_all L' tl
+    | v :: tl => do L' <- loop_push L v; push_all L' tl   (* `?` since fix 32d90b8 (was .unwrap(): Panic 24) *)
     end.
   Definition loop_sanitize (L : Loop) : res Loop :=
     do nw <- push_all loop_new (verts L);
